@@ -186,7 +186,7 @@ func asLine(as *xAS) string {
 	if strings.Contains(st.Media, "$Time$") {
 		addr = "time"
 	}
-	sn, ts, dur, tl := "-", "1", "-", "-"
+	sn, ts, dur, tl, pto := "-", "1", "-", "-", "-"
 	if st.StartNumber != nil {
 		sn = strconv.FormatUint(*st.StartNumber, 10)
 	}
@@ -195,6 +195,9 @@ func asLine(as *xAS) string {
 	}
 	if st.Duration != nil {
 		dur = strconv.FormatUint(*st.Duration, 10)
+	}
+	if st.PTO != nil {
+		pto = strconv.FormatUint(*st.PTO, 10)
 	}
 	if st.Timeline != nil {
 		var sb strings.Builder
@@ -205,8 +208,16 @@ func asLine(as *xAS) string {
 		sb.WriteByte(']')
 		tl = sb.String()
 	}
-	return fmt.Sprintf("%s:%s %s sn=%s ts=%s dur=%s tl=%s", asContentType(as), rep, addr, sn, ts, dur, tl)
+	cont := 0
+	for _, d := range as.Supplemental {
+		if d.SchemeIdUri == "urn:mpeg:dash:period-continuity:2015" {
+			cont = 1
+		}
+	}
+	return fmt.Sprintf("%s:%s %s sn=%s ts=%s dur=%s pto=%s cont=%d tl=%s", asContentType(as), rep, addr, sn, ts, dur, pto, cont, tl)
 }
+
+var periodIDRe = regexp.MustCompile(`^P(\d+)$`)
 
 func mpdLine(m *xMPD) string {
 	ast, _ := dateToMS(m.AST)
@@ -217,13 +228,31 @@ func mpdLine(m *xMPD) string {
 			mpdur = strconv.FormatInt(ms/1000, 10)
 		}
 	}
-	var parts []string
-	if len(m.Periods) > 0 {
-		for i := range m.Periods[0].Sets {
-			parts = append(parts, asLine(&m.Periods[0].Sets[i]))
+	var ps []string
+	for pi := range m.Periods {
+		p := &m.Periods[pi]
+		var parts []string
+		for i := range p.Sets {
+			if strings.HasPrefix(firstRepID(&p.Sets[i]), "timestpp-") || strings.HasPrefix(firstRepID(&p.Sets[i]), "timewvtt-") {
+				continue // generated subtitles are checked by C12
+			}
+			parts = append(parts, asLine(&p.Sets[i]))
 		}
+		id := p.ID
+		if mm := periodIDRe.FindStringSubmatch(p.ID); mm != nil {
+			id = "P" + mm[1]
+		}
+		startMS, _ := durToMS(p.Start)
+		ps = append(ps, fmt.Sprintf("%s@%d: %s", id, startMS/1000, strings.Join(parts, " | ")))
 	}
-	return fmt.Sprintf("%s ast=%d pt=%d mpdur=%s | %s", m.Type, ast/1000, pt, mpdur, strings.Join(parts, " | "))
+	return fmt.Sprintf("%s ast=%d pt=%d mpdur=%s || %s", m.Type, ast/1000, pt, mpdur, strings.Join(ps, " || "))
+}
+
+func firstRepID(as *xAS) string {
+	if len(as.Representations) > 0 {
+		return as.Representations[0].ID
+	}
+	return ""
 }
 
 func mpdURL(asset, cfg, name, nowMS string) string {
